@@ -68,6 +68,10 @@ def build(case):
     bs, kn, mknots = theta_space(case['nq'], case['deg'], case['uniform'], rng, case.get('perturb', False))
     theta = bs.greville.copy()
     z = case['z0'] + case['dz'] * np.arange(case['nz'])
+    if case.get('strat', case['sub']) % 4 == 1:
+        # the z grid as the set-up builds it for some periodic spline spaces (degree 5, general path): the first Greville point,
+        # within rounding of zMin, has been wrapped to the OTHER end of the period - the same point of the periodic direction (F31)
+        z[0] = case['z0'] + case['dz'] * case['nz']
     r = np.array(case['r'], float)
     eta = [r, theta, z]
     C = Constants()
@@ -124,7 +128,7 @@ def code_inputs(case, B, ri, shifts):
     C = B['C']
     r = B['r'][B['rs'] + ri:B['rs'] + ri + 1]
     bz = (1 / np.sqrt(1 + (r * C.iota(r) / C.R0) ** 2))[0]
-    dz = B['z'][1] - B['z'][0]
+    dz = B['z'][2] - B['z'][1]            # the step between two inner points (the first point of a periodic grid may be wrapped)
     rr = B['r'][B['rs'] + ri]
     pts = [np.mod(B['theta'] + C.iota(rr) * (dz * l) / C.R0, 2 * np.pi) for l in shifts]
     return float(bz), float(dz), pts
@@ -135,7 +139,7 @@ def reference(case, B, ri, phi):
     nz, nq, order = case['nz'], case['nq'], case['order']
     C = B['C']
     s, w = fd_weights_exact(order)
-    dz = float(B['z'][1] - B['z'][0])
+    dz = float(B['z'][2] - B['z'][1])
     r = float(B['r'][B['rs'] + ri])
     iota = float(np.asarray(C.iota(np.array([r]))).ravel()[0])        # the rotational transform of THIS radius
     bz = 1.0 / np.sqrt(1.0 + (r * iota / C.R0) ** 2)
@@ -304,7 +308,8 @@ def oracle(chk, case, B, tag, ri, phi, der):
     # rows whose stencil does not cross the periodic seam
     if case['iota'] == 0.0:
         cf = [float(rng.randint(-3, 4)) for _ in range(order + 1)]
-        zc = B['z'] - B['z'][nz // 2]
+        zu = case['z0'] + case['dz'] * np.arange(nz)          # positions without the periodic wrap of the first point
+        zc = zu - zu[nz // 2]
         pz = sum(c * zc ** k for k, c in enumerate(cf))
         dpz = sum(k * c * zc ** (k - 1) for k, c in enumerate(cf) if k > 0)
         d5 = np.empty((nz, nq))
